@@ -6,8 +6,8 @@
   predicates of ELF / PE / Mach-O / COFF / HEX / SREC.
 
   Layering:
-  * `RawField`, `unpackFields` : `StructCore.unpack` over raw fields (`offset = f.align(offset)`,
-    `struct.unpack` on `data[offset:offset+size]`, `offset += f.size()`), `layout` : the offsets that
+  * `RawField`, `unpackFields` : `StructCore.unpack` over raw fields (alignment relative to the
+    structure's base, `struct.unpack` on `data[offset:offset+size]`, `offset += f.size()`), `layout` : the offsets that
     walk produces from a relative origin;
   * `identFields … dynFields` : the `@StructDefine` field lists and the in-place patches of each
     `__init__` (`typename = "Q"`, `pop/insert/append`) exactly as coded;
@@ -73,16 +73,18 @@ abbrev Rec := List (String × Nat)
 
 def fget (r : Rec) (k : String) : Nat := (r.lookup k).getD 0
 
-/-- the field loop of `StructCore.unpack` (`aligned` = not packed) and of `Ehdr.unpack` (no
-    alignment), without the exception wrapper. -/
-def unpackFields (be aligned : Bool) : List RawField → Bytes → Nat → Py Rec
-  | [], _, _ => .ok []
-  | f :: fs, data, off =>
-    let o := if aligned then alignUp off f.size else off
-    match rdField be f data o with
+/-- the field loop of `StructCore.unpack` (`aligned` = not packed): fields are aligned relative to the
+    start `base` of the structure (`offset = base + f.align(offset - base)`, `offset += f.size()`);
+    with `aligned = false` the loop of `Ehdr.unpack` (no alignment). `rel` is the running offset
+    relative to `base`. No exception wrapper. -/
+def unpackFields (be aligned : Bool) : List RawField → Bytes → Nat → Nat → Py Rec
+  | [], _, _, _ => .ok []
+  | f :: fs, data, base, rel =>
+    let o := if aligned then alignUp rel f.size else rel
+    match rdField be f data (base + o) with
     | .error e => .error e
     | .ok v =>
-      match unpackFields be aligned fs data (o + f.nbytes) with
+      match unpackFields be aligned fs data base (o + f.nbytes) with
       | .error e => .error e
       | .ok r => .ok ((f.name, v) :: r)
 
@@ -91,8 +93,9 @@ def toStructureError {α} : Py α → Py α
   | .error _ => .error .structureError
   | r => r
 
+/-- `S(data, offset)` for a `StructFormatter` over raw fields -/
 def structUnpack (be : Bool) (fs : List RawField) (data : Bytes) (off : Nat) : Py Rec :=
-  toStructureError (unpackFields be true fs data off)
+  toStructureError (unpackFields be true fs data off 0)
 
 /-- relative layout `(name, offset, nbytes)` that the aligned field walk produces from origin `rel`. -/
 def layout : List RawField → Nat → List (String × Nat × Nat)
@@ -361,7 +364,7 @@ def identX64 (ident : Rec) : Bool := fget ident "EI_CLASS" == 2
 /-- `Ehdr.unpack`, second part: the remaining fields by `RawField.unpack` directly — no alignment,
     no `StructureError` wrapper. -/
 def elfEhdr (ident : Rec) (data : Bytes) : Py Rec :=
-  unpackFields (identBE ident) false (ehdrFields (identX64 ident)) data 16
+  unpackFields (identBE ident) false (ehdrFields (identX64 ident)) data 0 16
 
 /-- the program-header loop before the type filter -/
 def elfPhdrsAll (be x64 : Bool) (eh : Rec) (data : Bytes) : Py (List Rec) :=
@@ -700,10 +703,10 @@ def refElf (data : Bytes) : RefElf :=
 /-! ## `read_program` -/
 
 /-- header-level acceptance of `pe.PE`: DOS header (64 bytes, `MZ`), then `COFFHdr` at
-    `align(e_lfanew, 4)` with the `PE\0\0` signature. Everything after that is outside the model. -/
+    `e_lfanew` with the `PE\0\0` signature. Everything after that is outside the model. -/
 def peHeaderOK (data : Bytes) : Bool :=
   data.length ≥ 64 && slice data 0 2 == [77, 90] &&
-  (let o := alignUp (leVal (slice data 60 4)) 4
+  (let o := leVal (slice data 60 4)
    o + 24 ≤ data.length && leVal (slice data o 4) == 0x4550)
 
 /-- header-level acceptance of `macho.MachO`: 28 bytes, magic `MH_MAGIC`, `MH_MAGIC_64` (then 32
